@@ -297,9 +297,9 @@ def spaces(tier, seed):
     out.append(ProductSpace('epoch-list-W(3,6)', S.word_dims(S.alphabet(3), 6) + [ep24], eval_epoch_list,
                             describe='same, epochs of 3 cycles over 3 letters'))
     if tier != 'quick':
-        al = S.alphabet(6, seed, extra=1)
-        out.append(ProductSpace('words-W(7,5)-regions', S.word_dims(al, 5), WordRegions('quick'),
+        al = S.alphabet(6, seed, extra=0)
+        out.append(ProductSpace('words-W(6,5)-regions', S.word_dims(al, 5), WordRegions('quick'),
                                 bounds={'letters': al, 'moving': 1}))
-        out.append(ProductSpace('words-W(4,5)-regions2', S.word_dims(S.alphabet(4), 5), wr,
-                                bounds={'letters': S.alphabet(4), 'moving': 2}))
+        out.append(ProductSpace('words-W(3,5)-regions2', S.word_dims(S.alphabet(3), 5), wr,
+                                bounds={'letters': S.alphabet(3), 'moving': 2}))
     return out
